@@ -16,7 +16,7 @@ fi
 PATCH="$1"; shift
 mkdir -p /tmp/verif-mw "$OUT"
 if [ ! -d "$WT" ]; then git -C /repo worktree add -q --detach "$WT" HEAD || exit 2; fi
-git -C "$WT" checkout -q --detach "$(git -C /repo rev-parse HEAD)" && git -C "$WT" checkout -q -- . && git -C "$WT" clean -qfd
+git -C "$WT" checkout -q -- . && git -C "$WT" clean -qfd && git -C "$WT" checkout -q --detach "$(git -C /repo rev-parse HEAD)" || { echo "WORKTREE-RESET-FAILED"; exit 2; }
 if [ "$PATCH" != "none" ]; then
   git -C "$WT" apply "$PATCH" || { echo "PATCH-DOES-NOT-APPLY $PATCH"; exit 3; }
 fi
